@@ -1199,7 +1199,7 @@ class Evaluator:
                 if attr in ("upper", "lower", "strip", "replace", "split", "startswith", "endswith", "encode", "join",
                             "items", "keys", "values", "get", "format", "lstrip", "rstrip", "title", "capitalize", "decode",
                             "count", "index", "copy", "rsplit", "partition", "rpartition", "splitlines", "removeprefix", "removesuffix", "zfill", "isdigit",
-                            "isalpha", "isalnum", "isspace", "find", "rfind", "casefold", "swapcase", "center", "ljust", "rjust", "expandtabs", "hex"):
+                            "isalpha", "isalnum", "isspace", "find", "rfind", "casefold", "swapcase", "center", "ljust", "rjust", "expandtabs", "hex", "to_bytes", "bit_length"):
                     try:
                         r = getattr(base.v, attr)(*[a.v for a in args], **{k: v.v for k, v in kwargs.items()})
                     except Exception as ex:
